@@ -158,6 +158,13 @@ def impl_prop(c):
     pops = prop.propagate(p0 if c["via"] == "RateMatrix" else list(c["p0"]))
     if not numpy.array_equal(p0, p0c) or not numpy.array_equal(K, rm.data):
         raise AssertionError("inputs changed by propagate")
+    # re-use of the propagator: another state in between, then the same call again must give the same populations
+    other = numpy.roll(p0, 1) * 2.0
+    prop.propagate(other)
+    again = prop.propagate(p0 if c["via"] == "RateMatrix" else list(c["p0"]))
+    if not numpy.array_equal(numpy.asarray(again), numpy.asarray(pops)):
+        raise AssertionError("the same propagate call on the re-used propagator gives different populations (max deviation %g)"
+                             % numpy.max(numpy.abs(numpy.asarray(again) - numpy.asarray(pops))))
     return K, pops
 
 
@@ -222,6 +229,9 @@ def impl_pmat(c):
             return "U[:,:,%d] differs from expm(K*%g) by %g (sub-axis start %g, step %g)" % (i, t, err, substart, substep)
     if not numpy.array_equal(K, rm.data):
         return "rate matrix changed by get_PropagationMatrix"
+    U2 = prop.get_PropagationMatrix(ts)
+    if not numpy.array_equal(U, U2):
+        return "repeated get_PropagationMatrix on the same propagator differs by %g" % numpy.max(numpy.abs(U - U2))
     return None
 
 
